@@ -39,6 +39,8 @@ def scenario_for(inp, k, workdir):
            "regions": [{"name": "code", "len": 8192, "exec": True, "below": "hole", "above": "hole"}],
            "file_maps": [{"path": path, "off": 0, "len": 0x3000, "exec": True, "delete": inp["name"] == "deleted"}],
            "linker_chain": chain}
+    if inp["sp"] == "reserved_tail":
+        tgt["file_maps"][0]["guard_after"] = 8
     if inp["thr"] == "vfork":
         tgt["threads"].append({"mode": "vfork"})
     da = {"phnum": {"true": 3, "zero": 0, "larger": 100000, "huge": 1 << 60, "alloc_huge": 1 << 58}[inp["phnum"]],
@@ -56,11 +58,15 @@ def scenario_for(inp, k, workdir):
         w["stop_timeout_ms"] = 0
     if inp["tmo"] == "max":
         w["stop_timeout_max"] = True      # Duration::MAX: "wait for the stop however long it takes"
-    sp = {"in_stack": {"thread_sp": 0}, "guard": {"thread_stack": 0, "off": -24}, "unmapped": "0x10000", "top_page": hex(U64 - 7), "misaligned": {"thread_sp": 0, "off": 3}, "zero": 0}
+    sp = {"in_stack": {"thread_sp": 0}, "guard": {"thread_stack": 0, "off": -24}, "unmapped": "0x10000", "top_page": hex(U64 - 7), "misaligned": {"thread_sp": 0, "off": 3}, "zero": 0,
+          "reserved_tail": {"file_map": 0, "off": 0x3000 + 0x4000 + 0x128}}
     ip = {"interior": {"region": "code", "off": 300}, "first_bytes": {"region_map": "code", "off": 5}, "last_bytes": {"region_map_end": "code", "off": -3},
           "unmapped": "0x20000", "zero": 0, "max": hex(U64)}
     if inp["sp"] != "none" or inp["ip"] != "interior":
         w["crash_context"] = {"sp": sp.get(inp["sp"], {"thread_sp": 0}), "ip": ip[inp["ip"]]}
+    if inp["sp"] == "reserved_tail":
+        w["skip"] = True
+        w["principal"] = {"file_map": 0, "off": 0}
     scn = {"id": f"tot/{k}", "target": tgt, "writer": w, "timeout_ms": 3000 if inp["thr"] == "vfork" else 6000, "input": inp, "watch": [path] if inp["name"] == "dev" else []}
     if inp["phnum"] == "zero":
         # an unset count is completed from /proc/<pid>/auxv: the real program headers of the target are used
